@@ -18,7 +18,7 @@ Full statement / proved / missing
 * `C14_current`, `C14_current_exec` — every `px.CurrentContext()` anywhere in an execution (any goroutine, any nesting
   level of Do/DoWithContext/DoWithLoader/Fork/Go, before or after inner scopes returned or panicked, whatever ran in
   between) is the context handed to the innermost enclosing body.                                        **proved**
-* `C14_restore`, `C14_restore_do`, `C14_restore_loader` — the goroutine-local tables after ANY program are exactly the
+* `C14_restore`, `C14_restore_do`, `C14_restore_try`, `C14_restore_loader` — the goroutine-local tables after ANY program are exactly the
   tables before it (function equality), for the outcomes normal, panicked and out-of-fuel alike; `DoWithLoader` puts the
   loader back.                                                                                              **proved**
 * `C14_confined` — a context that a goroutine observes as current was made current for that goroutine and for no other
@@ -89,6 +89,11 @@ theorem C14_restore_doctx (f : Nat) (id : Nat) (p : Prog) (g c : Nat) (w : World
 theorem C14_restore_do (f : Nat) (id : Nat) (p : Prog) (g c : Nat) (w : World) (hi : Inv w) (hg : g < w.nextGid)
     (hp : g ∉ pendGids w) : (exec .now f (.dodo id p) g c w).2.tls = w.tls :=
   (exec_dodo_step hi hg hp).2
+
+/-- `pcore.Try` likewise (the body's panic is turned into the returned error after the inner scope was left) -/
+theorem C14_restore_try (f : Nat) (id : Nat) (p : Prog) (g c : Nat) (w : World) (hi : Inv w) (hg : g < w.nextGid)
+    (hp : g ∉ pendGids w) : (exec .now f (.dotry id p) g c w).2.tls = w.tls :=
+  (exec_dotry_step hi hg hp).2
 
 /-- `DoWithLoader` puts the context's loader back, also when the body panics -/
 theorem C14_restore_loader (f : Nat) (p : Prog) (g c : Nat) (w : World) :
@@ -252,6 +257,12 @@ example : (run .now [1, 1, 1] (.seq (.fork (.go (.fork .obs))) (.seq (.go .panic
 /-- `Do` left its root context set and the table allocated (fixed by 304610f) -/
 theorem C14_before_not_released :
     (run .before [] .skip).tls 0 ≠ none ∧ tlGet 0 ctxKey (run .before [] .skip) = some 0 ∧ live (run .before [] .skip) = 1 := by
+  decide
+
+/-- `Try` likewise, also when the body panics -/
+theorem C14_before_try_not_released :
+    tlGet 0 ctxKey (exec .before 9 (.dotry 1 .panic) 0 0 {}).2 = some 0 ∧ (exec .before 9 (.dotry 1 .panic) 0 0 {}).1 = .normal ∧
+    tlGet 0 ctxKey (exec .now 9 (.dotry 1 .panic) 0 0 {}).2 = none ∧ (exec .now 9 (.dotry 1 .panic) 0 0 {}).1 = .normal := by
   decide
 
 /-- a nested `Do` replaced the caller's current context by its own root and did not put it back -/
